@@ -296,8 +296,23 @@ DoSetIPs(p, I) ==
     /\ ips' = IF p \in tracked THEN [ips EXCEPT ![p] = I] ELSE ips
     /\ UNCHANGED <<now, par, tracked, conn, expire, pen, app, ts, rec>>
 
-\* SetTopicScoreParams: counters above a lowered cap are cut down to it
+\* Topic.SetScoreParams -> peerScore.SetTopicScoreParams.
+\* A record that validation refuses changes nothing (the old parameters stay in force).  ValidTP is
+\* TopicScoreParams.validate (atomic mode) on the integer family: decay 1/d is inside (0,1) iff d >= 2.
+ValidTP(tp) ==
+    /\ tp.tw >= 0
+    /\ tp.q # 0 /\ tp.w1 >= 0 /\ (tp.w1 # 0 => tp.q > 0 /\ tp.c1 > 0)
+    /\ tp.w2 >= 0 /\ (tp.w2 # 0 => tp.d2 >= 2 /\ tp.c2 > 0)
+    /\ tp.w3 <= 0 /\ (tp.w3 # 0 => tp.d3 >= 2 /\ tp.c3 > 0 /\ tp.thr > 0 /\ tp.act >= 1) /\ tp.win >= 0
+    /\ tp.w3b <= 0 /\ (tp.w3b # 0 => tp.d3b >= 2)
+    /\ tp.w4 <= 0 /\ tp.d4 >= 2
+\* An accepted update of a topic that already has parameters cuts EACH delivery counter of every tracked peer
+\* (connected or retained, in the mesh or not) down to ITS OWN new cap; nothing else is touched: the other
+\* counters, time in mesh and the P3 activation flag stay, and the new weights, decays, thresholds, window,
+\* activation and quantum simply apply from now on.  A topic without previous parameters starts with no history.
 DoSetTopicParams(t, tp) ==
+    IF ~ValidTP(tp) THEN UNCHANGED svars
+    ELSE
     /\ par' = [par EXCEPT !.topics = [u \in DOMAIN par.topics \cup {t} |-> IF u = t THEN tp ELSE par.topics[u]]]
     /\ ts' = IF Scored(t)
                THEN [p \in Peers |-> IF p \in tracked
